@@ -18,7 +18,7 @@ STUBS = ("#[cfg_attr(kani, kani::stub(std::fmt::format, crate::stubs::fmt_format
          "#[cfg_attr(kani, kani::stub(edp_client::digest::compute_digest, crate::stubs::digest_model))]\n"
          "#[cfg_attr(kani, kani::stub(edp_client::digest::generate_challenge, crate::stubs::challenge_model))]\n")
 STEP = {"B": "step_begin(&mut r);", "N": "step_send_name(&mut r);", "S": "step_status::<2>(&mut r);", "s": "step_status::<3>(&mut r);",
-        "C": "step_complement(&mut r);", "H": "their = step_challenge(&mut r);", "R": "step_reply(&mut r, their);",
+        "C": "step_complement(&mut r);", "H": "their = step_challenge(&mut r, their);", "R": "step_reply(&mut r, their);",
         "A": "step_ack(&mut r);", "D": "step_disconnect(&mut r);"}
 QUICK = ["BNSHRA", "A", "HA", "HDA", "HRA", "HAHA", "HADA", "HHA", "RA", "BNsA", "HRDRA", "NCA", "HAA", "DHA"]
 
